@@ -1,7 +1,7 @@
 From Coq Require Import ZArith Lia.
 From RsdnsModel Require Import Base GenConst GenCursor GenHeader GenSpec Cursor Names Labels Header Tracker RData Reader Writer.
 From RsdnsModel.Spec Require Import WireName LinearPass RDataWire.
-From RsdnsModel.Proofs Require Import CursorSafe ListN Bits WriterLayout RecordRT RDataRT ParseSpec RecordFull ReaderRefine MessageRT RDataCompressed.
+From RsdnsModel.Proofs Require Import CursorSafe ListN Bits WriterLayout RecordRT RDataRT ParseSpec RecordFull TrackerRefine ReaderRefine MessageRT RDataCompressed EndToEnd.
 From RsdnsModel.Properties Require Import C02.
 Open Scope N_scope.
 Check (C02_header_fields : forall msg, 12 <= lenN msg ->
@@ -64,6 +64,20 @@ Check (C02_standing_record_bytes : forall msg p x e, record_stands msg p x e ->
 Check (C02_whole_message_example : let q := mkSQ [(12, [x61])] 1 1 in
   let x := mkSR [(12, [x61])] 1 1 60 (SVal (A_A 16909060)) in
   questions_stand example_msg 12 [q] 19 /\ records_stand example_msg 19 [x] 35 /\ lenN example_msg = 35).
+Check (C02_reader_record_end_to_end : forall msg qs rs nq an ns ar e1 e2,
+  lenN msg <= 65535 -> 12 <= lenN msg -> questions_stand msg 12 qs e1 -> records_stand msg e1 rs e2 ->
+  lenN qs = nq -> lenN rs = an + ns + ar -> nq <= 65535 -> an <= 65535 -> ns <= 65535 -> ar <= 65535 ->
+  exists qends rends,
+    parsed msg nq an ns ar (qitems 12 qs qends) (ritems e1 rs rends) e1 e2 /\ rstands msg e1 rs rends /\
+    forall k p x e a r hw,
+      getN (ritems e1 rs rends) k = Some (ritem p x e) -> record_stands msg p x e -> sr_data x = SVal a ->
+      RState msg nq an ns ar (qitems 12 qs qends) (ritems e1 rs rends) e2 r (nq + k) hw ->
+      exists r1 mk r2,
+        rd_header_n msg Inline r = (r1, Ok (OHeaderN (text_of_labels (sr_labels x)) mk)) /\
+        m_off mk = p /\ m_rtype mk = sr_type x /\ m_rclass mk = sr_class x /\ m_ttl mk = sr_ttl x /\
+        m_rdlen mk = lenN (rdata_enc a) /\ m_section mk = section_of (lin nq an ns ar) k /\
+        rd_data msg (sr_type x) mk r1 = (r2, Ok (ORData (rdata_val a))) /\
+        RState msg nq an ns ar (qitems 12 qs qends) (ritems e1 rs rends) e2 r2 (nq + k + 1) (N.max hw (nq + k + 1))).
 Check (C02_rdata_compressed_names : forall msg c p rd,
   cwf msg c -> orig c = None -> pos c = p -> p + rd <= lim c ->
   (forall ty ls, is_name_type ty = true -> name_in msg (p + rd) p ls (p + rd) ->
@@ -83,4 +97,4 @@ Check (C02_rdata_compressed_names : forall msg c p rd,
 Check (C02_rdata_compressed_example : name_in example_cname_msg 35 31 [(31, [x62]); (12, [x61])] 35 /\
   exists m, read_rdata example_cname_msg T_CNAME 4 = Some m /\
             m (c_with_pos example_cname_msg 31) = (c_with_pos example_cname_msg 35, Ok (RD_Name T_CNAME [x62; x2e; x61; x2e]))).
-Print Assumptions C02_header_fields. Print Assumptions C02_flags. Print Assumptions C02_opt_fields. Print Assumptions C02_opt_do. Print Assumptions C02_a_record_roundtrip_plain. Print Assumptions C02_fixed_part_roundtrip. Print Assumptions C02_rdata_roundtrip_all_types. Print Assumptions C02_record_roundtrip. Print Assumptions C02_standing_items. Print Assumptions C02_whole_message_parsed. Print Assumptions C02_standing_record_decodes. Print Assumptions C02_standing_record_bytes. Print Assumptions C02_whole_message_example. Print Assumptions C02_rdata_compressed_names. Print Assumptions C02_rdata_compressed_example.
+Print Assumptions C02_header_fields. Print Assumptions C02_flags. Print Assumptions C02_opt_fields. Print Assumptions C02_opt_do. Print Assumptions C02_a_record_roundtrip_plain. Print Assumptions C02_fixed_part_roundtrip. Print Assumptions C02_rdata_roundtrip_all_types. Print Assumptions C02_record_roundtrip. Print Assumptions C02_standing_items. Print Assumptions C02_whole_message_parsed. Print Assumptions C02_standing_record_decodes. Print Assumptions C02_standing_record_bytes. Print Assumptions C02_whole_message_example. Print Assumptions C02_reader_record_end_to_end. Print Assumptions C02_rdata_compressed_names. Print Assumptions C02_rdata_compressed_example.
